@@ -399,7 +399,7 @@ def check_c21(tier):
         if path:
             violations.append(path)
             log("violation: %s: %s" % (cls, msg))
-        else:
+        elif mf:
             mfaults.append(mf)
     wall = time.time() - t0
     exp = psim.Explorer(prop, exe, tier, None, A_API)
@@ -434,6 +434,8 @@ def minimise_api(prop, f, tier):
 
     a, h1, _ = fails_with(script)
     b, h2, _ = fails_with(script)
+    if cls == "hang" and not a and not b:
+        return None, None
     if not a or not b or h1 != h2:
         return None, "API history failure %s not reproducible (hashes %s / %s)" % (cls, h1, h2)
     deadline = time.time() + (120 if tier == "quick" else 400)
